@@ -1,1 +1,142 @@
--- property theorems of C03 (not built yet)
+/-
+  C03 — optical depth composes additively over contributions and species.
+  Statements about `Taurex.Transmission` (tau loop, with and without the C01 early exit) and `Taurex.Sigma`
+  (how `sigma_xsec` is assembled from per-species components) at the carrier ℝ.
+-/
+import Proofs.C03
+
+open Finset
+
+namespace Taurex.C03
+open Taurex.Transmission Taurex.Sigma
+
+/-- the optical depth of a concatenated contribution list is the sum of the parts -/
+theorem tauFull_append (n : ℕ) (path dens : ℕ → ℝ) (l : ℕ) (cs ds : List (Contrib ℝ)) (wn : ℕ) :
+    tauFull n path dens l (cs ++ ds) wn = tauFull n path dens l cs wn + tauFull n path dens l ds wn := by
+  simp [tauFull_eq_sum]
+
+/-- … and does not depend on the order in which contributions were added -/
+theorem tauFull_perm (n : ℕ) (path dens : ℕ → ℝ) (l : ℕ) (cs cs' : List (Contrib ℝ)) (h : cs.Perm cs') (wn : ℕ) :
+    tauFull n path dens l cs wn = tauFull n path dens l cs' wn := by
+  rw [tauFull_eq_sum, tauFull_eq_sum]
+  exact (h.map _).sum_eq
+
+/-- transmittance of the whole = product of the transmittances of each contribution alone -/
+theorem transmittance_mul (n : ℕ) (path dens : ℕ → ℝ) (l : ℕ) (cs : List (Contrib ℝ)) (wn : ℕ) :
+    Transmission.trans (tauFull n path dens l cs wn)
+      = (cs.map (fun c => Transmission.trans (tauFull n path dens l [c] wn))).prod := by
+  rw [tauFull_eq_sum, trans_sum, List.map_map]
+  rfl
+
+/-- the two-contribution instance used by the examples: an absorber and a CIA-like term -/
+def nv : List (Contrib ℝ) :=
+  [{ kind := .lin, sigma := fun _ wn => if wn = 0 then 20 else 0 }, { kind := .sq, sigma := fun _ _ => 1 }]
+
+theorem nv_nonneg : ∀ c ∈ nv, c.Nonneg := by
+  intro c hc
+  simp only [nv, List.mem_cons, List.not_mem_nil, or_false] at hc
+  rcases hc with rfl | rfl <;> intro l wn <;> simp only <;> [split <;> norm_num; norm_num]
+
+example := tauFull_perm 2 (fun _ => (1 : ℝ)) (fun _ => (1 : ℝ)) 0 nv nv.reverse (List.reverse_perm nv).symm 0
+example := transmittance_mul 2 (fun _ => (1 : ℝ)) (fun _ => (1 : ℝ)) 0 nv 1
+
+/-- each contribution's optical depth is the sum over its components (one per molecule / pair), so its
+    transmittance is the product over the components (what `model_full_contrib` returns) -/
+theorem component_sum (n : ℕ) (path dens : ℕ → ℝ) (l : ℕ) (κ : Kind) (comps : List (ℕ → ℕ → ℝ)) (wn : ℕ) :
+    tauFull n path dens l [{ kind := κ, sigma := sumComps comps }] wn
+      = (comps.map (fun s => tauFull n path dens l [{ kind := κ, sigma := s }] wn)).sum := by
+  simp only [tauFull_eq_sum, List.map_cons, List.map_nil, List.sum_cons, List.sum_nil, add_zero]
+  induction comps with
+  | nil => rw [sumComps_nil]; simpa using inc_zero n path dens l κ wn
+  | cons s comps ih =>
+    rw [sumComps_cons, inc_add n path dens l κ s (sumComps comps) wn, ih]
+    simp
+
+theorem component_product (n : ℕ) (path dens : ℕ → ℝ) (l : ℕ) (κ : Kind) (comps : List (ℕ → ℕ → ℝ)) (wn : ℕ) :
+    Transmission.trans (tauFull n path dens l [{ kind := κ, sigma := sumComps comps }] wn)
+      = (comps.map (fun s => Transmission.trans (tauFull n path dens l [{ kind := κ, sigma := s }] wn))).prod := by
+  rw [component_sum, trans_sum, List.map_map]; rfl
+
+example := component_product 2 (fun _ => (1 : ℝ)) (fun _ => (1 : ℝ)) 0 .lin
+  [compAbs (fun _ _ => 3) (fun _ => 1 / 2), compAbs (fun _ wn => wn) (fun _ => 1 / 4)] 1
+
+/-- a species at zero abundance contributes a zero component, and a zero component changes nothing -/
+theorem zero_abundance (xsec : ℕ → ℕ → ℝ) (mix1 : ℕ → ℝ) (comps : List (ℕ → ℕ → ℝ)) :
+    compAbs xsec (fun _ => 0) = (fun _ _ => 0) ∧ compCIA xsec (fun _ => 0) mix1 = (fun _ _ => 0) ∧
+    compCIA xsec mix1 (fun _ => 0) = (fun _ _ => 0) ∧
+    sumComps ((fun _ _ => (0 : ℝ)) :: comps) = sumComps comps := by
+  refine ⟨?_, ?_, ?_, ?_⟩
+  · funext l wn; simp [compAbs]
+  · funext l wn; simp [compCIA]
+  · funext l wn; simp [compCIA]
+  · rw [sumComps_cons]; funext l wn; simp
+
+example := zero_abundance (fun _ wn => (wn : ℝ) + 1) (fun _ => 1 / 2) [compAbs (fun _ _ => 3) (fun _ => 1 / 2)]
+
+/-- a component's weighted opacity is proportional to its abundance (bilinear in the two partners for CIA),
+    and so is its optical depth -/
+theorem sigma_prop (xsec : ℕ → ℕ → ℝ) (mix mix2 : ℕ → ℝ) (s : ℝ) (l wn : ℕ) :
+    compAbs xsec (fun j => s * mix j) l wn = s * compAbs xsec mix l wn ∧
+    compCIA xsec (fun j => s * mix j) mix2 l wn = s * compCIA xsec mix mix2 l wn ∧
+    compCIA xsec mix (fun j => s * mix2 j) l wn = s * compCIA xsec mix mix2 l wn ∧
+    compScaled (fun w => xsec 0 w) (fun j => s * mix j) l wn = s * compScaled (fun w => xsec 0 w) mix l wn := by
+  refine ⟨?_, ?_, ?_, ?_⟩ <;> simp only [compAbs, compCIA, compScaled] <;> ring
+
+theorem tau_prop (n : ℕ) (path dens : ℕ → ℝ) (l : ℕ) (κ : Kind) (sig : ℕ → ℕ → ℝ) (s : ℝ) (wn : ℕ) :
+    tauFull n path dens l [{ kind := κ, sigma := fun a b => s * sig a b }] wn
+      = s * tauFull n path dens l [{ kind := κ, sigma := sig }] wn := by
+  simp only [tauFull_eq_sum, List.map_cons, List.map_nil, List.sum_cons, List.sum_nil, add_zero]
+  exact inc_smul n path dens l κ s sig wn
+
+example := sigma_prop (fun _ wn => (wn : ℝ) + 1) (fun _ => 1 / 2) (fun _ => 1 / 3) 2 0 1
+
+/-! ### with the early exit of `path_integral` (C01): "to within the saturation cut-off" -/
+
+/-- a single contribution is never cut (the row starts at 0 ≤ 10) -/
+theorem tauCut_single (n nwn : ℕ) (hn : 0 < nwn) (path dens : ℕ → ℝ) (l : ℕ) (c : Contrib ℝ) :
+    tauCut n nwn path dens l [c] = tauFull n path dens l [c] := by
+  have : saturated nwn (fun _ => (0 : ℝ)) = false := by
+    rw [Bool.eq_false_iff]; intro h
+    have := (saturated_iff nwn _).1 h 0 hn
+    norm_num at this
+  simp [tauCut, tauFull, tauCutFrom, tauFullFrom, this]
+
+/-- the returned transmittance of a multi-contribution model differs from the product of the transmittances of
+    its contributions run alone (`model_contrib`) by less than `exp(-10)`, and is never below it -/
+theorem product_within_cutoff (n nwn : ℕ) (path dens : ℕ → ℝ) (l : ℕ) (hp : ∀ k < n - l, 0 ≤ path k)
+    (hd : ∀ j < n, 0 ≤ dens j) (cs : List (Contrib ℝ)) (hcs : ∀ c ∈ cs, c.Nonneg) (wn : ℕ) (hwn : wn < nwn) :
+    (cs.map (fun c => Transmission.trans (tauCut n nwn path dens l [c] wn))).prod
+        ≤ Transmission.trans (tauCut n nwn path dens l cs wn) ∧
+    Transmission.trans (tauCut n nwn path dens l cs wn)
+        - (cs.map (fun c => Transmission.trans (tauCut n nwn path dens l [c] wn))).prod ≤ Transmission.trans 10 := by
+  have hn : 0 < nwn := by omega
+  have e : (cs.map (fun c => Transmission.trans (tauCut n nwn path dens l [c] wn))).prod
+      = Transmission.trans (tauFull n path dens l cs wn) := by
+    rw [transmittance_mul]
+    congr 1
+    apply List.map_congr_left
+    intro c _
+    rw [tauCut_single n nwn hn]
+  rw [e]
+  exact trans_cut_band n nwn path dens l hp hd cs hcs wn hwn
+
+example := product_within_cutoff 2 2 (fun _ => (1 : ℝ)) (fun _ => (1 : ℝ)) 0 (fun _ _ => by norm_num)
+  (fun _ _ => by norm_num) nv nv_nonneg 1 (by norm_num)
+
+/-- with the early exit, two insertion orders give transmittances within `exp(-10)` of each other -/
+theorem order_within_cutoff (n nwn : ℕ) (path dens : ℕ → ℝ) (l : ℕ) (hp : ∀ k < n - l, 0 ≤ path k)
+    (hd : ∀ j < n, 0 ≤ dens j) (cs cs' : List (Contrib ℝ)) (hcs : ∀ c ∈ cs, c.Nonneg) (h : cs.Perm cs')
+    (wn : ℕ) (hwn : wn < nwn) :
+    |Transmission.trans (tauCut n nwn path dens l cs wn) - Transmission.trans (tauCut n nwn path dens l cs' wn)|
+      ≤ Transmission.trans 10 := by
+  have hcs' : ∀ c ∈ cs', c.Nonneg := fun c hc => hcs c (h.mem_iff.2 hc)
+  have a := trans_cut_band n nwn path dens l hp hd cs hcs wn hwn
+  have b := trans_cut_band n nwn path dens l hp hd cs' hcs' wn hwn
+  rw [tauFull_perm n path dens l cs cs' h wn] at a
+  rw [abs_le]
+  constructor <;> linarith [a.1, a.2, b.1, b.2]
+
+example := order_within_cutoff 2 2 (fun _ => (1 : ℝ)) (fun _ => (1 : ℝ)) 0 (fun _ _ => by norm_num)
+  (fun _ _ => by norm_num) nv nv.reverse nv_nonneg (List.reverse_perm nv).symm 0 (by norm_num)
+
+end Taurex.C03
